@@ -64,7 +64,7 @@ CHECKS = {
    technique="exhaustive enumeration of small digraphs + property-based testing against a graph reference model (validity predicate)"),
 
  "C12": dict(level="exploration", design="4/C12",
-   text="Exhaustive over placement chains of depth 1-3 (depth 4 in thorough) on the eight right-angle orientations x 5 offsets per level, every point of a 9x9 grid: Transform::from_instance / cascade / Point::transform must equal the exact integer composition reflect->rotate ccw->translate, and (depth 1) the cascade of the library's own elementary transforms; random chains with large offsets; random cell hierarchies through Layout::flatten compared as multisets with the model composition; general angles against real arithmetic within 0.5.",
+   text="Exhaustive over placement chains of depth 1-3 (depth 4 in thorough) on the eight right-angle orientations x 7 offsets per level, every point of a 9x9 grid: Transform::from_instance / cascade / Point::transform must equal the exact integer composition reflect->rotate ccw->translate, and (depth 1) the cascade of the library's own elementary transforms; random chains with large offsets; random cell hierarchies through Layout::flatten compared as multisets with the model composition; general angles against real arithmetic within 0.5.",
    note="Trusted base: integer orientation matrices in harness/src/refmodel/geom.rs.",
    technique="exhaustive enumeration + property-based testing against an exact integer reference model; differential against the library's elementary transforms"),
  "C13": dict(level="exploration", design="4/C13",
